@@ -337,7 +337,7 @@ func (vm *VM) callNative(fn *NativeFunction, numVariadic int8, shift StackShift,
 			if i < lastNonVariadic {
 				if i < 2 && typ.In(i) == envType {
 					// Set the path of the file that contains the call.
-					if vm.main {
+					if vm.main && vm.fn != nil {
 						env := vm.env
 						env.mu.Lock()
 						env.callPath = vm.fn.InstructionInfo[vm.pc-1].Path
@@ -584,6 +584,10 @@ func (vm *VM) nextCall() bool {
 					vm.calls[i].status = panicked
 					if call.cl.fn != nil {
 						i++
+					} else {
+						// The deferred call is a native call: it is
+						// executed here, remove its frame.
+						vm.calls = vm.calls[:i+1]
 					}
 					break
 				}
@@ -601,6 +605,10 @@ func (vm *VM) nextCall() bool {
 			}
 			vm.fp = call.fp
 			vm.callNative(call.cl.Native(), call.numVariadic, StackShift{}, false)
+			if i < len(vm.calls) && vm.calls[i].status == panicked {
+				// Continue with the other deferred calls of the panicked call.
+				i++
+			}
 		}
 	}
 	return false
